@@ -105,6 +105,13 @@ Theorem C20_coarse : forall pt now g g' m e cs cs' a,
 Proof. exact coarser_shrinks. Qed.
 Print Assumptions C20_coarse.
 
+(* finding F14b: a trivially satisfied (constant-path) LessThan over an unsatisfied variable-path child *)
+Theorem C20_lessthan_refuted_b :
+  exists pt now g e cs a, compile pt now g e = Ok cs /\ sat cs a = true /\ alignedb g e = true /\
+    lt_okb e (populate pt now a e) = false.
+Proof. exact lessthan_refuted_b. Qed.
+Print Assumptions C20_lessthan_refuted_b.
+
 (* the utility reported by populateResults is the value of the model objective *)
 Theorem C20_utility_is_objective : forall pt now g e cs a,
   compile pt now g e = Ok cs -> sol_util (solve pt now a e) = objective_value cs a.
